@@ -26,7 +26,8 @@ func lbvcCompRead(l *commitLog, from int64, max int) (offs []int64, vals []strin
 	hb := make([]byte, 28)
 	newest := l.NewestOffset()
 	for i := 0; i < max && from <= newest; i++ {
-		ctx, cancel := context.WithTimeout(context.Background(), 150*time.Millisecond)
+		// every read up to the newest offset finds a message: the time-out only guards against a hang
+		ctx, cancel := context.WithTimeout(context.Background(), 10*time.Second)
 		m, off, _, _, err := r.ReadMessage(ctx, hb)
 		cancel()
 		if err != nil {
@@ -48,7 +49,7 @@ func lbvcCompReadRev(l *commitLog, from int64) (offs []int64) {
 	}
 	hb := make([]byte, 28)
 	for i := 0; i < 64; i++ {
-		ctx, cancel := context.WithTimeout(context.Background(), 150*time.Millisecond)
+		ctx, cancel := context.WithTimeout(context.Background(), 10*time.Second)
 		_, off, _, _, err := r.ReadMessage(ctx, hb)
 		cancel()
 		if err != nil {
